@@ -772,7 +772,7 @@ func sameContract(a, b *Contract) bool {
 		var sb []string
 		for _, g := range [][]*Clause{c.Requires, c.Ensures, c.Preserves} {
 			for _, cl := range g {
-				if strings.HasPrefix(cl.Label, "own") {
+				if strings.HasPrefix(cl.Label, "own") || hasTag(cl, "local") {
 					continue
 				}
 				sb = append(sb, cl.Kind+"["+cl.Facet+"]"+strings.Join(strings.Fields(cl.Src), " "))
